@@ -56,7 +56,7 @@ def main():
     try:
         for c in checks:
             t = time.time()
-            rc, out = sh(f"./check {c} quick", cwd="/verif")
+            rc, out = sh(f"./check {c} quick --no-evidence", cwd="/verif")
             lines = [l for l in out.splitlines() if l.startswith("VIOLATION") or l.strip().startswith(("clause", "what"))]
             results[c] = {"exit": rc, "seconds": round(time.time() - t, 1), "report": lines[:3]}
             print(c, "exit", rc, f"{time.time()-t:.1f}s", *lines[:3], sep="\n   ")
